@@ -279,6 +279,10 @@ func Variants(s *State, thorough bool) []Variant {
 			add(Variant{Id: fmt.Sprintf("%s-upd-div0-%s", n, label[i]), Late: late,
 				Op:    &Update{Id: "v", Targets: []string{n}, From: single(n), Sets: []SetItem{set(col(ts.txt), oneOver(C(ts.num), k))}},
 				Retry: &Update{Id: "r", Targets: []string{n}, From: single(n), Sets: []SetItem{set(col(ts.txt), oneOver(C(ts.num), safeK))}}})
+			// the dividend is a cell of the table itself (num / (num - k)): the failing division must leave it alone
+			add(Variant{Id: fmt.Sprintf("%s-upd-cell-div0-%s", n, label[i]), Late: late,
+				Op:    &Update{Id: "v", Targets: []string{n}, From: single(n), Sets: []SetItem{set(col(ts.txt), Arith{'/', C(ts.num), Arith{'-', C(ts.num), LI(k)}})}},
+				Retry: &Update{Id: "r", Targets: []string{n}, From: single(n), Sets: []SetItem{set(col(ts.txt), Arith{'/', C(ts.num), Arith{'-', C(ts.num), LI(safeK)}})}}})
 			if label[i] == "first" {
 				// the first SET item of the first record is installed, then the second fails
 				add(Variant{Id: n + "-upd-div0-2nd-set-item", Late: true,
